@@ -35,11 +35,22 @@ def _extra(sc, run, res, mons, inj):
                 left = [snap.key(i) for i in snap.steps if M.eligible(g, i, need, M.OPTIONAL, None)[0]]
             except Exception:  # noqa: BLE001
                 left = []
+            key = "hang-with-eligible" if left else "hang"
+            import collections
+
+            c = collections.Counter(
+                ev[3] for ev in w.log[r.log_start : r.log_end] if ev[2] == "dispatch" and ev[4] == "CHECKING"
+            )
+            if c and c.most_common(1)[0][1] > 200:
+                # known finding F15: ValidateDynamicJob puts the step back to PENDING without
+                # any wait condition and it is selected again at once, for ever
+                key = "validate-dynamic-livelock"
             res.violate(
                 "R-elig/liveness",
                 "hang",
-                f"build does not terminate: {r.hang}; eligible steps in the database: {left[:5]}",
-                "hang-with-eligible" if left else "hang",
+                f"build does not terminate: {r.hang}; eligible steps in the database: {left[:5]}; "
+                f"most dispatched: {c.most_common(1)}",
+                key,
             )
     # termination of deferring steps: a step FAILED by the cap deferred exactly cap times before
     for ev in w.log:
